@@ -2,7 +2,7 @@
 from harness import fam_raops, fam_ra2
 TRUSTED = fam_raops.TRUSTED
 ASSUME = ["integer element values (element operations and result dtypes are numpy's own; floats only with exactly representable results)"]
-RULE = "operations: nonzero subset rslice padded; " + fam_raops.RULE
+RULE = "operations: nonzero subset rslice padded where like concat1; " + fam_raops.RULE
 def run(R, tier, rng):
-    fam_raops.run_family(R, tier, rng, set("nonzero subset rslice padded".split()))
+    fam_raops.run_family(R, tier, rng, set("nonzero subset rslice padded where like concat1".split()))
     fam_ra2.run_c08(R, tier, rng)
